@@ -952,3 +952,299 @@ class _Cumsum:
     @staticmethod
     def torch(c, t):
         return t.cumsum(t.tensor(_x(c)), c["dim"])
+
+
+# ---- pool / conv / pad attribute adjustment -------------------------------------------------------
+
+def il(a):
+    """driver token of an int-or-list argument"""
+    return f"i{a}" if isinstance(a, int) else ints(a)
+
+
+def fdata(shape):
+    n = int(np.prod(shape)) if len(shape) else 1
+    return np.asarray((((np.arange(n) * 7) % 11) / 3.0 - 1.0).astype(np.float32).reshape(shape))
+
+
+def _variant(rng, vals, allow_int=True):
+    """a k-tuple given as list / int (if all equal) / 1-element list (if all equal)"""
+    if len(set(vals)) == 1:
+        u = rng.random()
+        if allow_int and u < 0.25:
+            return vals[0]
+        if u < 0.4:
+            return [vals[0]]
+    return list(vals)
+
+
+def _gen_pool(rng, k, with_dil):
+    sp = [rng.randint(3, 8) for _ in range(k)]
+    dil = [rng.choice([1, 1, 2]) for _ in range(k)] if with_dil else [1] * k
+    ks = [rng.randint(1, 4) for _ in range(k)]
+    for i in range(k):
+        while (ks[i] - 1) * dil[i] + 1 > sp[i] + 2:
+            ks[i] -= 1
+            if ks[i] < 1:
+                ks[i], dil[i] = 1, 1
+    if k == 3:
+        ks = [min(ks[i], sp[i]) for i in range(k)]
+    pad = [rng.randint(0, ks[i] // 2) for i in range(k)]
+    if rng.random() < 0.04:
+        pad[0] += 2                      # beyond half the kernel: PyTorch refuses
+    if rng.random() < 0.3:
+        pad = [pad[0]] * k
+    st = [rng.randint(1, 3) for _ in range(k)]
+    stv = [] if rng.random() < 0.2 else _variant(rng, st)
+    batched = rng.random() < 0.7
+    shape = ([rng.choice([1, 2])] if batched else []) + [rng.choice([1, 2, 3])] + sp
+    return dict(k=k, shape=shape, dtype="f32", ks=_variant(rng, ks), st=stv, pad=_variant(rng, pad),
+                dil=_variant(rng, dil), ceil=rng.random() < 0.4, cip=rng.random() < 0.5)
+
+
+def _avg(k):
+    class _A:
+        fnname = f"aten_avg_pool{k}d"
+
+        @staticmethod
+        def gen(rng):
+            return _gen_pool(rng, k, False)
+
+        @staticmethod
+        def line(c):
+            return f"avg_pool {k} {sh(c['shape'])} {il(c['ks'])} {il(c['st'])} {il(c['pad'])} {int(c['ceil'])} {int(c['cip'])}"
+
+        @staticmethod
+        def call(c):
+            return [fdata(c["shape"]), c["ks"], c["st"], c["pad"], c["ceil"], c["cip"]], {}
+
+        @staticmethod
+        def torch(c, t):
+            f = getattr(t.nn.functional, f"avg_pool{k}d")
+            return f(t.tensor(fdata(c["shape"])), c["ks"], c["st"] if c["st"] != [] else None, c["pad"], c["ceil"], c["cip"])
+
+        @staticmethod
+        def branch(c):
+            p = c["pad"]
+            return "pad:int" if isinstance(p, int) else f"pad:len{len(p)}" + ("" if len(set(p)) == 1 else ":asym")
+    return _A
+
+
+for _k in (1, 2, 3):
+    fam(f"avg_pool{_k}d", "attr", [f"aten::avg_pool{_k}d"])(_avg(_k))
+
+
+def _max(k, wi):
+    class _M:
+        fnname = f"aten_max_pool{k}d" + ("_with_indices" if wi else "")
+
+        @staticmethod
+        def gen(rng):
+            c = _gen_pool(rng, k, True)
+            c["wi"] = wi
+            if wi and len(c["shape"]) == k + 1:
+                c["shape"] = [1] + c["shape"]
+            return c
+
+        @staticmethod
+        def line(c):
+            return (f"max_pool {k} {sh(c['shape'])} {il(c['ks'])} {il(c['st'])} {il(c['pad'])} {il(c['dil'])} "
+                    f"{int(c['ceil'])} {int(wi)}")
+
+        @staticmethod
+        def call(c):
+            return [fdata(c["shape"]), c["ks"], c["st"], c["pad"], c["dil"], c["ceil"]], {}
+
+        @staticmethod
+        def torch(c, t):
+            f = getattr(t.nn.functional, f"max_pool{k}d")
+            return f(t.tensor(fdata(c["shape"])), c["ks"], c["st"] if c["st"] != [] else None, c["pad"], c["dil"], c["ceil"],
+                     return_indices=wi)
+
+        @staticmethod
+        def branch(c):
+            p = c["pad"]
+            return "pad:int" if isinstance(p, int) else f"pad:len{len(p)}" + ("" if len(set(p)) == 1 else ":asym")
+    return _M
+
+
+for _k in (1, 2, 3):
+    fam(f"max_pool{_k}d", "attr", [f"aten::max_pool{_k}d"])(_max(_k, False))
+fam("max_pool2d_with_indices", "attr", ["aten::max_pool2d_with_indices"], outkind="list")(_max(2, True))
+fam("max_pool3d_with_indices", "attr", ["aten::max_pool3d_with_indices"], outkind="list")(_max(3, True))
+
+
+def _gen_conv(rng, allow_transposed, allow_len1):
+    k = rng.choice([1, 2, 2, 3]) if allow_len1 else 2
+    g = rng.choice([1, 1, 2])
+    cg, og = rng.choice([1, 2]), rng.choice([1, 2])
+    tr = allow_transposed and rng.random() < 0.35
+    sp = [rng.randint(3, 7) for _ in range(k)]
+    dil = [rng.choice([1, 1, 2]) for _ in range(k)]
+    kern = [rng.randint(1, 3) for _ in range(k)]
+    for i in range(k):
+        while (kern[i] - 1) * dil[i] + 1 > sp[i]:
+            kern[i] -= 1
+            if kern[i] < 1:
+                kern[i], dil[i] = 1, 1
+    pad = [rng.randint(0, 2) for _ in range(k)]
+    st = [rng.randint(1, 3) for _ in range(k)]
+    op = [rng.randint(0, st[i] - 1) for i in range(k)] if tr else [0] * k
+    if tr:
+        for i in range(k):   # keep the transposed output non-empty
+            while (sp[i] - 1) * st[i] - 2 * pad[i] + dil[i] * (kern[i] - 1) + op[i] + 1 < 1:
+                pad[i] -= 1
+    shape = [rng.choice([1, 2]), g * cg] + sp
+    w = ([g * cg, og] if tr else [g * og, cg]) + kern
+    var = (lambda v: _variant(rng, v, allow_int=False)) if allow_len1 else list
+    return dict(shape=shape, dtype="f32", w=w, st=var(st), pad=var(pad), dil=var(dil), tr=tr, op=op, g=g, k=k,
+                nout=g * og)
+
+
+def _conv_line(c):
+    return (f"conv {sh(c['shape'])} {sh(c['w'])} {il(c['st'])} {il(c['pad'])} {il(c['dil'])} {int(c['tr'])} "
+            f"{ints(c['op'])} {c['g']}")
+
+
+def _conv_torch(c, t):
+    F = t.nn.functional
+    x, w, b = t.tensor(fdata(c["shape"])), t.tensor(fdata(c["w"])), t.tensor(fdata([c["nout"]]))
+    st, pad, dil = (tuple(v) if isinstance(v, list) else v for v in (c["st"], c["pad"], c["dil"]))
+    if c["tr"]:
+        return getattr(F, f"conv_transpose{c['k']}d")(x, w, b, st, pad, tuple(c["op"]), c["g"], dil)
+    return getattr(F, f"conv{c['k']}d")(x, w, b, st, pad, dil, c["g"])
+
+
+@fam("convolution", "attr", ["aten::convolution"])
+class _Convolution:
+    fnname = "aten_convolution"
+
+    @staticmethod
+    def gen(rng):
+        return _gen_conv(rng, True, True)
+
+    line = staticmethod(_conv_line)
+
+    @staticmethod
+    def call(c):
+        return [fdata(c["shape"]), fdata(c["w"]), fdata([c["nout"]]), c["st"], c["pad"], c["dil"], c["tr"], c["op"], c["g"]], {}
+
+    torch = staticmethod(_conv_torch)
+
+    @staticmethod
+    def branch(c):
+        return ("transposed" if c["tr"] else "conv") + f":{c['k']}d:" + ("len1" if len(c["pad"]) == 1 and c["k"] > 1 else "full") \
+            + ("" if len(set(c["pad"])) <= 1 else ":asym")
+
+
+@fam("conv2d", "attr", ["aten::conv2d"])
+class _Conv2d:
+    fnname = "aten_conv2d"
+
+    @staticmethod
+    def gen(rng):
+        return _gen_conv(rng, False, False)
+
+    line = staticmethod(_conv_line)
+
+    @staticmethod
+    def call(c):
+        return [fdata(c["shape"]), fdata(c["w"]), fdata([c["nout"]]), c["st"], c["pad"], c["dil"], c["g"]], {}
+
+    torch = staticmethod(_conv_torch)
+
+
+def _gen_pad(rng, mode):
+    if mode == "constant":
+        r = rng.randint(1, 4)
+        s = [rng.randint(2, 5) for _ in range(r)]
+        m = rng.randint(0, r)
+        p = []
+        for j in range(m):
+            d = s[r - 1 - j]
+            p += [rng.randint(-(d // 2) if rng.random() < 0.25 else 0, 3), rng.randint(0, 3)]
+        return dict(shape=s, dtype="f32", pad=p, mode=mode)
+    nd = rng.choice([1, 2])
+    r = nd + rng.choice([1, 2])
+    s = [rng.randint(3, 5) for _ in range(r)]
+    return dict(shape=s, dtype="f32", pad=[rng.randint(0, 2) for _ in range(2 * nd)], mode=mode)
+
+
+_ONNX_MODE = {"reflect": "reflect", "replicate": "edge", "circular": "wrap"}
+
+
+def _pad_line(c, kind=None):
+    if kind == "c":
+        return f"pad {sh(c['shape'])} {ints(c['pad'])} c 1.5:FLOAT"
+    if c["mode"] == "constant":
+        return f"pad {sh(c['shape'])} {ints(c['pad'])} n -"
+    return f"pad {sh(c['shape'])} {ints(c['pad'])} m {_ONNX_MODE[c['mode']]}"
+
+
+@fam("constant_pad_nd", "attr", ["aten::constant_pad_nd"])
+class _ConstPad:
+    fnname = "aten_constant_pad_nd"
+
+    @staticmethod
+    def gen(rng):
+        return _gen_pad(rng, "constant")
+
+    @staticmethod
+    def line(c):
+        return _pad_line(c, "c")
+
+    @staticmethod
+    def call(c):
+        return [fdata(c["shape"]), list(c["pad"]), 1.5], {}
+
+    @staticmethod
+    def torch(c, t):
+        return t.nn.functional.pad(t.tensor(fdata(c["shape"])), tuple(c["pad"]), value=1.5)
+
+
+@fam("pad", "attr", ["aten::pad"])
+class _Pad:
+    fnname = "aten_pad"
+
+    @staticmethod
+    def gen(rng):
+        return _gen_pad(rng, rng.choice(["constant", "reflect", "replicate", "circular"]))
+
+    line = staticmethod(_pad_line)
+
+    @staticmethod
+    def call(c):
+        return [fdata(c["shape"]), list(c["pad"]), c["mode"]], {}
+
+    @staticmethod
+    def torch(c, t):
+        return t.nn.functional.pad(t.tensor(fdata(c["shape"])), tuple(c["pad"]), mode=c["mode"])
+
+    @staticmethod
+    def branch(c):
+        return "mode:" + c["mode"]
+
+
+def _modepad(name, fnname, mode, nd):
+    class _P:
+        @staticmethod
+        def gen(rng):
+            r = nd + rng.choice([1, 2])
+            s = [rng.randint(3, 5) for _ in range(r)]
+            return dict(shape=s, dtype="f32", pad=[rng.randint(0, 2) for _ in range(2 * nd)], mode=mode)
+
+        line = staticmethod(_pad_line)
+
+        @staticmethod
+        def call(c):
+            return [fdata(c["shape"]), list(c["pad"])], {}
+
+        @staticmethod
+        def torch(c, t):
+            return t.nn.functional.pad(t.tensor(fdata(c["shape"])), tuple(c["pad"]), mode=mode)
+    _P.fnname = fnname
+    return fam(name, "attr", ["aten::" + name])(_P)
+
+
+_modepad("reflection_pad1d", "aten_reflection_pad1d", "reflect", 1)
+_modepad("reflection_pad2d", "aten_reflection_pad2d", "reflect", 2)
+_modepad("replication_pad2d", "aten_replication_pad2d", "replicate", 2)
